@@ -215,8 +215,8 @@ func shapedScenario(g *Gen, which int) Case {
 				}
 			}
 			t.file(lp+"/layerconfig", conf)
-			t.dir(lp + "/build/usr")             // the user's own directory called "build"
-			t.dir(lp + "/overlayfs/upperdir")    // … and one called like the default upper directory
+			t.dir(lp + "/build/usr")          // the user's own directory called "build"
+			t.dir(lp + "/overlayfs/upperdir") // … and one called like the default upper directory
 		}
 		um := obj("cmd", "umount", "args", hxs([]string{"d0"}), "all", false)
 		if which == 12 {
@@ -268,6 +268,36 @@ func shapedScenario(g *Gen, which int) Case {
 		}
 		steps = []interface{}{cmd("probe"), obj("cmd", "remove", "args", hxs([]string{"d0"}), "files", false), cmd("probe"),
 			cmd("mount", "b0"), umountAll(), obj("cmd", "remove", "args", hxs([]string{"b0"}), "files", false), cmd("probe")}
+	case 17, 18, 19:
+		// a mount made by hand below an import mountpoint and one ON that mountpoint (the shape
+		// of the binman suite's history): 17 = below first, then on: the second covers the first
+		// and what hangs below it, `umount` asks for the covered mountpoint first and is refused
+		// on every retry (finding umount-order-hidden-submount) until the covering mount is taken
+		// away by hand; 18 = the control order, nothing is hidden, `umount` succeeds; 19 = the
+		// hidden shape inside a derived layer, unmounted with -all
+		imps := []string{"import proc /proc /proc", "import rbind " + VB + "/hostsrc /mnt/host"}
+		for _, l := range []glayer{{name: "b0", imports: imps}, {name: "d0", base: "b0", imports: imps}} {
+			genLayerTree(g, t, l, pf, false)
+		}
+		ln := "b0"
+		if which == 19 {
+			ln = "d0"
+		}
+		host := VB + "/layers/" + ln + "/build/mnt/host"
+		bind := func(src, tgt string) map[string]interface{} {
+			return obj("cmd", "sysmount", "args", hxs([]string{src, tgt, "bind"}), "flags", float64(4096))
+		}
+		onSub, onHost := bind(VB+"/hostsrc/sub", host+"/sub"), bind(VB+"/hostsrc", host)
+		switch which {
+		case 17:
+			steps = []interface{}{cmd("mount", ln), onSub, onHost, cmd("probe"), cmd("umount", ln), cmd("probe"),
+				cmd("umount", ln), obj("cmd", "sysumount", "args", hxs([]string{host})), cmd("umount", ln), cmd("probe")}
+		case 18:
+			steps = []interface{}{cmd("mount", ln), onHost, onSub, cmd("probe"), cmd("umount", ln), cmd("probe")}
+		default:
+			steps = []interface{}{cmd("mount", ln), onSub, onHost, cmd("probe"), umountAll(), cmd("probe"),
+				obj("cmd", "sysumount", "args", hxs([]string{host})), umountAll(), cmd("probe")}
+		}
 	default:
 		// export directory names that differ from the layer's own directory names, explicit
 		// export directives, then rename and remove
@@ -286,7 +316,7 @@ func shapedScenario(g *Gen, which int) Case {
 
 func init() {
 	register("scn-directed", func(g *Gen, tier string, emit func(Case)) {
-		for w := 0; w < 17; w++ {
+		for w := 0; w < 20; w++ {
 			emit(shapedScenario(g, w))
 		}
 		for _, imp := range directedImports {
